@@ -173,6 +173,7 @@ typedef struct ColumnSlashTable {
   unsigned int remainder;	/* extra space needed to fill out to width */
   int pres;			/* presision */
   format_info info;		/* formatting data */
+  char *owned;			/* temporary string the data points into, released with the entry */
   struct ColumnSlashTable *next;
 } cst;				/* Columns Slash Tables */
 
@@ -728,6 +729,8 @@ static int add_column (cst ** column, int trailing) {
       temp = col->next;
       if (col->pad)
         FREE (col->pad);
+      if (col->owned)
+        FREE_MSTR (col->owned);
       FREE (col);
       *column = temp;
       return ret;
@@ -783,6 +786,8 @@ static int add_table (cst ** table) {
         FREE (tab->pad);
       if (tab_d)
         FREE (tab_d);
+      if (tab->owned)
+        FREE_MSTR (tab->owned);
       FREE (tab);
       *table = temp;
       return 1;
@@ -862,6 +867,8 @@ char* string_print_formatted (char *format_str, int argc, svalue_t * argv) {
       cst *next = csts->next;
       if (!(csts->info & INFO_COLS) && csts->d.tab)
         FREE (csts->d.tab);
+      if (csts->owned)
+        FREE_MSTR (csts->owned);
       FREE (csts);
       csts = next;
     }
@@ -1170,6 +1177,13 @@ char* string_print_formatted (char *format_str, int argc, svalue_t * argv) {
                           *temp =
                             ALLOCATE (cst, TAG_TEMPORARY, "string_print: 3");
                           (*temp)->next = 0;
+                          (*temp)->owned = 0;
+                          if (carg == &clean)
+                            {
+                              /* the column is printed over several lines: it keeps the temporary string */
+                              (*temp)->owned = clean.u.string;
+                              clean.type = T_NUMBER;
+                            }
                           (*temp)->d.col = carg->u.string;
                           (*temp)->pad = make_pad (&pad);
                           (*temp)->size = fs;
@@ -1195,6 +1209,13 @@ char* string_print_formatted (char *format_str, int argc, svalue_t * argv) {
 
                           (*temp) = ALLOCATE (cst, TAG_TEMPORARY, "string_print: 4");
                           (*temp)->d.tab = 0;
+                          (*temp)->owned = 0;
+                          if (carg == &clean)
+                            {
+                              /* the table is printed over several lines: it keeps the temporary string */
+                              (*temp)->owned = clean.u.string;
+                              clean.type = T_NUMBER;
+                            }
                           (*temp)->pad = make_pad (&pad);
                           (*temp)->info = finfo;
                           (*temp)->start = get_curpos ();
